@@ -5,6 +5,7 @@ import (
 	"errors"
 	"fmt"
 	"reflect"
+	goruntime "runtime"
 	"sort"
 	"strconv"
 	"strings"
@@ -41,11 +42,16 @@ type HostFault struct {
 type StepCase struct {
 	Engine     string      `json:"engine"`
 	Seed       uint64      `json:"seed"`
-	Program    string      `json:"program"`
+	Program    string      `json:"program,omitempty"` // legacy: complete text, entry "run"
+	Decls      string      `json:"decls,omitempty"`
+	Body       string      `json:"body,omitempty"`
+	Entry      string      `json:"entry,omitempty"`     // run | call | valuecall | eval : API route by which the main program is started
+	LateChan   bool        `json:"late_chan,omitempty"` // install the Interrupt channel only after the runtime has already run scripts
 	ClassB     bool        `json:"class_b"`
 	StackLimit int         `json:"stack_limit"`
 	ChanCap    int         `json:"chan_cap"`
-	Mode       string      `json:"mode"` // exhaustive | seeded
+	Mode       string      `json:"mode"` // exhaustive | seeded | limitgrid
+	GridForm   int         `json:"grid_form,omitempty"`
 	Irqs       []Irq       `json:"irqs,omitempty"`
 	HostFaults []HostFault `json:"host_faults,omitempty"`
 	Debugger   bool        `json:"debugger"`
@@ -99,6 +105,7 @@ type stepRun struct {
 	minDepthBad bool
 	anchors  *anchorLog // recorded on reference runs
 	flagSteps []int
+	senders   []chan struct{}
 }
 
 type anchorLog struct {
@@ -149,6 +156,13 @@ func stepHook(o *otto.Otto, kind otto.VerifStepKind, node interface{}) {
 	if depth < 1 && r.viol == nil {
 		r.viol = viol("C18", "no_scope_while_running", "scope depth %d at step %d", depth, idx)
 	}
+	if lim := r.c.StackLimit; lim > 0 && depth > 2*lim+8 && r.viol == nil {
+		// every nesting level adds at least one function context and at most one
+		// global context, so a limit of L can never legitimately show more than 2L
+		r.viol = viol("C18", "stack_limit_not_enforced", "%d execution contexts nested at step %d under SetStackDepthLimit(%d)", depth, idx, lim)
+		r.abort = true
+		panic(harnessAbort{"depth"})
+	}
 	if r.anchors != nil {
 		if kind >= otto.VerifStepFor {
 			r.anchors.loopHead = append(r.anchors.loopHead, idx)
@@ -176,6 +190,16 @@ func stepHook(o *otto.Otto, kind otto.VerifStepKind, node interface{}) {
 			continue
 		}
 		fn := r.makeIrqFn(p)
+		if cap(r.vm.Interrupt) == 0 {
+			// unbuffered channel: a real watchdog goroutine performs the send;
+			// the interpreter proceeds to its poll once that goroutine is parked
+			// in the channel send, so the poll finds a ready sender.
+			r.startSender(fn)
+			p.sent = true
+			p.sentAt = idx
+			r.st.Probe("unbuffered_real_sender")
+			continue
+		}
 		select {
 		case r.vm.Interrupt <- fn:
 			p.sent = true
@@ -185,6 +209,51 @@ func stepHook(o *otto.Otto, kind otto.VerifStepKind, node interface{}) {
 			r.st.Probe("chan_full_retry")
 		}
 	}
+}
+
+// startSender launches a goroutine that sends fn on the (unbuffered)
+// Interrupt channel and waits until it is blocked in the send.
+func (r *stepRun) startSender(fn func()) {
+	ch := r.vm.Interrupt
+	done := make(chan struct{})
+	r.senders = append(r.senders, done)
+	started := make(chan struct{})
+	go func() {
+		close(started)
+		ch <- fn
+		close(done)
+	}()
+	<-started
+	buf := make([]byte, 1<<16)
+	for i := 0; i < 100000; i++ {
+		select {
+		case <-done:
+			return // already received (cannot happen before the poll, but harmless)
+		default:
+		}
+		n := goruntime.Stack(buf, true)
+		if strings.Contains(string(buf[:n]), "[chan send]") || strings.Contains(string(buf[:n]), "[chan send,") {
+			return
+		}
+		goruntime.Gosched()
+	}
+	fatalf("harness: sender goroutine never parked in chan send")
+}
+
+// reapSenders unblocks sender goroutines whose function was never received
+// because the script ended first.
+func (r *stepRun) reapSenders() {
+	for _, d := range r.senders {
+		for {
+			select {
+			case <-d:
+			case <-r.vm.Interrupt:
+				continue
+			}
+			break
+		}
+	}
+	r.senders = nil
 }
 
 func (r *stepRun) lastHaltStep() int {
@@ -400,6 +469,34 @@ func (r *stepRun) install() {
 	}
 }
 
+// protectedEntry starts the main program through the case's API route.
+func protectedEntry(vm *otto.Otto, entry, src string) (val otto.Value, err error, panicked bool, pv interface{}) {
+	defer func() {
+		if x := recover(); x != nil {
+			panicked = true
+			pv = x
+		}
+	}()
+	switch entry {
+	case "", "run":
+		val, err = vm.Run(src)
+	case "call":
+		val, err = vm.Call(src, nil)
+	case "valuecall":
+		var fn otto.Value
+		fn, err = vm.Get(src)
+		if err != nil {
+			fatalf("harness: Get(%s): %v", src, err)
+		}
+		val, err = fn.Call(otto.UndefinedValue())
+	case "eval":
+		val, err = vm.Eval(src + "()")
+	default:
+		fatalf("unknown entry %q", entry)
+	}
+	return
+}
+
 // protectedRun calls vm.Run(src) and converts a panic into data.
 func protectedRun(vm *otto.Otto, src string) (val otto.Value, err error, panicked bool, pv interface{}) {
 	defer func() {
@@ -417,14 +514,29 @@ func protectedRun(vm *otto.Otto, src string) (val otto.Value, err error, panicke
 func execRun(c *StepCase, irqs []Irq, withChan bool, st *Stats, wantAnchors bool) *RunResult {
 	r := &stepRun{c: c, st: st, rng: NewRng(c.Seed), gid: goid()}
 	r.vm = otto.New()
-	if withChan {
-		capn := c.ChanCap
-		if capn < 1 {
-			capn = 1
+	mkChan := func() {
+		if withChan {
+			r.vm.Interrupt = make(chan func(), c.ChanCap) // capacity 0: unbuffered, real sender goroutines
 		}
-		r.vm.Interrupt = make(chan func(), capn)
+	}
+	if !c.LateChan {
+		mkChan()
 	}
 	r.install()
+	define, mainSrc := c.Program, ""
+	if c.Program == "" {
+		define, mainSrc = assemble(c.Decls, c.Body, c.Entry)
+	} else {
+		define, mainSrc = "", c.Program
+	}
+	if define != "" {
+		if _, err := r.vm.Run(define); err != nil {
+			fatalf("harness: definition stage failed: %v\n%s", err, define)
+		}
+	}
+	if c.LateChan {
+		mkChan()
+	}
 	if c.StackLimit > 0 {
 		r.vm.SetStackDepthLimit(c.StackLimit)
 	}
@@ -444,9 +556,10 @@ func execRun(c *StepCase, irqs []Irq, withChan bool, st *Stats, wantAnchors bool
 	}
 	curStep = r
 	r.active = true
-	val, err, panicked, pv := protectedRun(r.vm, c.Program)
+	val, err, panicked, pv := protectedEntry(r.vm, c.Entry, mainSrc)
 	r.active = false
 	curStep = nil
+	r.reapSenders()
 	st.Runs++
 	st.Steps += int64(r.step)
 	st.SimTimeNs += r.clock
@@ -781,12 +894,14 @@ func genStepCase(t *rapid.T, tier string) *StepCase {
 	if rapid.IntRange(0, 2).Draw(t, "limit?") > 0 {
 		c.StackLimit = rapid.IntRange(3, 40).Draw(t, "limit")
 	}
-	c.ChanCap = rapid.IntRange(1, 4).Draw(t, "cap")
+	c.ChanCap = rapid.IntRange(0, 4).Draw(t, "cap")
+	c.Entry = []string{"run", "run", "call", "valuecall", "eval"}[rapid.IntRange(0, 4).Draw(t, "entry")]
+	c.LateChan = rapid.IntRange(0, 3).Draw(t, "latechan") == 3
 	c.Debugger = rapid.Bool().Draw(t, "dbg")
 	c.TraceLimit = rapid.IntRange(0, 3).Draw(t, "trace")
 	budget := rapid.IntRange(4, 40).Draw(t, "budget")
 	g := newPG(t, budget, c.StackLimit > 0, c.ClassB)
-	c.Program = g.Program()
+	c.Decls, c.Body = g.Parts()
 	if g.nHostF > 0 {
 		n := rapid.IntRange(0, 2).Draw(t, "nhf")
 		for i := 0; i < n; i++ {
@@ -900,7 +1015,7 @@ func (stepEngine) Init() {
 	otto.VerifStep = stepHook
 	st := NewStats()
 	// expected continuation value: measured on a fresh runtime, not hand-computed
-	c := &StepCase{Engine: "stepsim", Program: "1;"}
+	c := &StepCase{Engine: "stepsim", Program: "1;", ChanCap: 1}
 	r := &stepRun{c: c, st: st, rng: NewRng(1)}
 	r.vm = otto.New()
 	r.install()
@@ -925,8 +1040,89 @@ func (stepEngine) Decode(b []byte) (interface{}, error) {
 // Exec runs the case. It returns the violation (if any) and, when the
 // violation was found by the exhaustive sweep, an explicit single-schedule
 // version of the case for the replay file.
+// Preflight enumerates the finite (recursion form x limit) grid completely.
+func (e stepEngine) Preflight(st *Stats) (*Violation, interface{}) {
+	nf := len(recursionForms("r"))
+	for f := 0; f < nf; f++ {
+		for L := 2; L <= 14; L++ {
+			c := &StepCase{Engine: "stepsim", Mode: "limitgrid", GridForm: f, StackLimit: L, ChanCap: 1}
+			if v, rc, _ := e.Exec(c, st); v != nil {
+				return v, rc
+			}
+		}
+	}
+	st.Probe("limit_grid_cells_enumerated")
+	return nil, nil
+}
+
+func gridCase(c *StepCase, L int) *StepCase {
+	cc := *c
+	cc.StackLimit = L
+	cc.Entry = "run"
+	cc.Decls = "var D=0,K=-1;function r(n){D++;return " + recursionForms("r")[c.GridForm] + ";}\n"
+	cc.Body = "try{r(0)}catch(re){K=(re instanceof RangeError)?1:0;}emit('r',D,K);\n"
+	return &cc
+}
+
+func execLimitGrid(c *StepCase, st *Stats) (*Violation, interface{}, bool) {
+	form := recursionForms("r")[c.GridForm]
+	count := func(L int) (int, bool, *RunResult, *StepCase) {
+		gc := gridCase(c, L)
+		r := execRun(gc, nil, true, st, false)
+		n, re := 0, false
+		for _, e := range r.Journal {
+			if e.Tag == "r" {
+				n = e.T
+				re = e.Kind == 1
+			}
+		}
+		return n, re, r, gc
+	}
+	L := c.StackLimit
+	n1, re1, r1, gc1 := count(L)
+	st.Fault("stack_limit_grid")
+	st.Sig(hashStr("limitgrid", form, strconv.Itoa(L)))
+	st.NonTrivial++
+	fail := func(class, f string, a ...interface{}) (*Violation, interface{}, bool) {
+		gc1.Mode = "limitgrid"
+		return viol("C18", class, "recursion form `%s`, limit %d: "+f, append([]interface{}{form, L}, a...)...), gc1, true
+	}
+	if r1.run.viol != nil {
+		gc1.Mode = "limitgrid"
+		return r1.run.viol, gc1, true
+	}
+	if r1.run.overrun {
+		return fail("stack_limit_not_enforced", "recursion did not stop within %d steps", r1.Steps)
+	}
+	if r1.Panicked {
+		return fail("foreign_panic", "Run panicked with %T(%v)", r1.PanicVal, r1.PanicVal)
+	}
+	if n1 > L-1 {
+		return fail("limit_not_exact", "%d nested calls of r were admitted, at most %d may be", n1, L-1)
+	}
+	if c.GridForm == 0 && n1 != L-1 {
+		return fail("limit_not_exact", "direct recursion admitted %d nested calls, documented %d", n1, L-1)
+	}
+	hostForm := strings.Contains(form, "hrun") || strings.Contains(form, "hcall") || strings.Contains(form, "hvcall") || strings.Contains(form, "heval") || strings.Contains(form, "hobj")
+	if !hostForm && !re1 {
+		return fail("limit_error_not_catchable", "the script's catch clause did not receive a RangeError (value %s, err %q)", r1.Value, r1.Err)
+	}
+	n2, _, r2, _ := count(L + 1)
+	if r2.run.viol == nil && !r2.run.overrun && n2 < n1 {
+		return fail("limit_not_monotone", "limit %d admitted %d calls but limit %d only %d", L, n1, L+1, n2)
+	}
+	if v := postChecks(gc1, r1); v != nil {
+		gc1.Mode = "limitgrid"
+		return v, gc1, true
+	}
+	return nil, nil, true
+}
+
 func (stepEngine) Exec(ci interface{}, st *Stats) (*Violation, interface{}, bool) {
 	c := ci.(*StepCase)
+	if c.Mode == "limitgrid" {
+		return execLimitGrid(c, st)
+	}
 	st.Cases++
 	var r0 *RunResult
 	if !c.ClassB {
